@@ -22,13 +22,13 @@ OutFile == IOEnv.TRACE_OUT
 
 SetOfSeq(sq) == {sq[k] : k \in 1..Len(sq)}
 CallOf(e) == [op |-> e.op, from |-> e.from, tsave |-> e.tsave, tot |-> e.tot, maxit |-> e.maxit,
-              freqs |-> SetOfSeq(e.freqs), cfl |-> e.cfl]
+              freqs |-> SetOfSeq(e.freqs), cfl |-> e.cfl, dtl |-> e.dtl]
 ScriptOf(tr) == LET idx == SelectSeq([k \in 1..Len(tr.events) |-> k], LAMBDA k : tr.events[k].e = "call")
                 IN  [j \in 1..Len(idx) |-> CallOf(tr.events[idx[j]])]
 
 (* the constants of Driver only bound its Init; here every behaviour is pinned to one recorded trace, so they are
    instantiated by sets that merely type-check (computing them from the traces made Init quadratic) *)
-AnyScripts == Seq([op : STRING, from : STRING, tsave : Seq(Int), tot : Int, maxit : Int, freqs : SUBSET Int, cfl : Int])
+AnyScripts == Seq([op : STRING, from : STRING, tsave : Seq(Int), tot : Int, maxit : Int, freqs : SUBSET Int, cfl : Int, dtl : BOOLEAN])
 AnyKinds == {"onestep", "implicit", "gear"}
 AnyProfiles == {"c4", "c3", "var"}
 AnyT0s == 0..4096
